@@ -1,5 +1,5 @@
 hdr = r'''#![feature(allocator_api)]
-// Unit BASIC: simple documented functions — get, size, ?, default, and, or, not, xor, first, last, all, any, pop, push (C04, C05)
+// Unit BASIC: simple documented functions — get, size, ?, default, and, or, not, xor, first, last, all, any, pop, push, put, insert_if_absent, replace_if_exists, entries, range, push_front, pop_first (C04, C05)
 use vstd::prelude::*;
 use std::rc::Rc;
 use vstd::std_specs::iter::IteratorSpec;
@@ -200,6 +200,86 @@ out += fn("f_push", F+"list/list_manipulations/push.rs", "f.push", '''        ma
                                 self.0@.len() >= 1, it.seq().len() == self.0@.len() - 1, 0 <= it.index@ <= it.seq().len(),
                                 forall|j: int| 0 <= j < it.seq().len() ==> #[trigger] it.seq()[j] == j + 1,
                                 push_from(self.0@, value, it.index@ + 1, new_list@) == push_from(self.0@, value, 1, lst@),
+''')
+# ---- batch 2: object manipulation, entries, range, push_front, pop_first
+out += '''
+impl Clone for IndexMap<String, JsonValue> {
+    #[verifier::external_body]
+    fn clone(&self) -> (r: Self) ensures r == *self { unimplemented!() }
+}
+pub mod st {
+use vstd::prelude::*;
+pub uninterp spec fn str_of(s: Seq<char>) -> String;
+pub broadcast axiom fn axiom_str_of(s: Seq<char>) ensures (#[trigger] str_of(s))@ == s;
+}
+use st::*;
+pub open spec fn obj3(args: Seq<Rc<dyn Get>>, value: &Context) -> Option<(IndexMap<String, JsonValue>, String, JsonValue)> {
+    match (arg(args, value, 0), arg(args, value, 1), arg(args, value, 2)) {
+        (Some(JsonValue::Object(m)), Some(JsonValue::String(k)), Some(v)) => Some((m, k, v)), _ => None }
+}
+'''
+out += fn("f_put", F+"object/manipulate_object/put.rs", "f.put", "        match obj3(self.0@, value) { Some((m, k, v)) => Some(json_object(im_insert(m.entries(), k, v))), None => None }", "(put o k v): the object with member k set to v — replaced in place when present, appended otherwise; nothing unless o is an object, k a string and v present")
+out += fn("f_insert_if_absent", F+"object/manipulate_object/insert_if_absent.rs", "f.insert_if_absent", "        match obj3(self.0@, value) { Some((m, k, v)) => Some(json_object(if m.has(k) { m.entries() } else { im_insert(m.entries(), k, v) })), None => None }", "(insert_if_absent o k v): o unchanged when it has member k, otherwise o with k: v appended; nothing unless o is an object, k a string and v present")
+out += fn("f_replace_if_exists", F+"object/manipulate_object/replace_if_exists.rs", "f.replace_if_exists", "        match obj3(self.0@, value) { Some((m, k, v)) => Some(json_object(if m.has(k) { im_insert(m.entries(), k, v) } else { m.entries() })), None => None }", "(replace_if_exists o k v): o with member k replaced in place when present, otherwise o unchanged; nothing unless o is an object, k a string and v present")
+out += '''
+pub open spec fn entry_obj(e: (String, JsonValue)) -> JsonValue { json_object(seq![(str_of("value"@), e.1), (str_of("key"@), JsonValue::String(e.0))]) }
+pub open spec fn entries_list(e: Seq<(String, JsonValue)>) -> Seq<JsonValue> { Seq::new(e.len(), |i: int| entry_obj(e[i])) }
+pub open spec fn range_list(n: int) -> Seq<JsonValue> { Seq::new(n as nat, |i: int| jnum(i)) }
+pub open spec fn push_front_from(args: Seq<Rc<dyn Get>>, value: &Context, i: int, acc: Seq<JsonValue>) -> Seq<JsonValue>
+    decreases args.len() - i
+{
+    if i < 1 || i >= args.len() { acc } else { push_front_from(args, value, i + 1, match args[i].get_spec(value) { Some(v) => seq![v].add(acc), None => acc }) }
+}
+'''
+out += fn("f_entries", F+"object/object_to_list/entries.rs", "f.entries", "        match arg(self.0@, value, 0) { Some(JsonValue::Object(m)) => Some(json_array(entries_list(m.entries()))), _ => None }", "(entries o): one object {value, key} per member of o, in member order; nothing for a non-object",
+ extra='''//@@ body-start
+        broadcast use st::axiom_str_of, cl::axiom_string_ext;
+//@@ loop 1 iter it
+                        invariant
+                            it.seq() == map.entries(), 0 <= it.index@ <= map.entries().len(),
+                            list@ == entries_list(map.entries()).subrange(0, it.index@),
+//@@ loop-start 1
+                        broadcast use st::axiom_str_of, cl::axiom_string_ext, group_json_names, cl::group_clone_is_copy;
+                        proof { reveal_strlit("value"); reveal_strlit("key"); assert("value"@.len() == 5 && "key"@.len() == 3); }
+//@@ after "list.push(data.into());"
+                        proof {
+                            let e1 = seq![(str_of("value"@), v)];
+                            assert(!im_has(Seq::<(String, JsonValue)>::empty(), str_of("value"@)));
+                            assert(!im_has(e1, str_of("key"@))) by { if im_has(e1, str_of("key"@)) { let j = im_idx(e1, str_of("key"@)); assert(e1[j].0@.len() == 5); } }
+                            assert(data.entries() =~= seq![(str_of("value"@), v), (str_of("key"@), JsonValue::String(k))]);
+                            assert(entries_list(map.entries()).subrange(0, it.index@).push(entry_obj((k, v))) =~= entries_list(map.entries()).subrange(0, it.index@ + 1));
+                        }
+//@@ after-loop 1
+                    proof { assert(list@ =~= entries_list(map.entries())); }
+''')
+out += fn("f_range", F+"list/list_producers/range.rs", "f.range", "        match arg(self.0@, value, 0) { Some(JsonValue::Number(n)) => match num_to_usize(n) { Some(k) => Some(json_array(range_list(k as int))), None => None }, _ => None }", "(range N): the list 0, 1, .., N-1; nothing unless N is a non-negative integer",
+ rewrites="vec_macro_empty", extra='''//@@ loop 1 iter it
+                                invariant 0 <= it.index@ <= size, it.seq().len() == size, forall|j: int| 0 <= j < it.seq().len() ==> #[trigger] it.seq()[j] == j,
+                                    vec@ == range_list(size as int).subrange(0, it.index@),
+//@@ after "vec.push(i.into());"
+                                proof { assert(range_list(size as int).subrange(0, it.index@).push(jnum(i as int)) =~= range_list(size as int).subrange(0, it.index@ + 1)); }
+//@@ after-loop 1
+                            proof { assert(vec@ =~= range_list(size as int)); }
+''')
+out += fn("f_push_front", F+"list/list_manipulations/push_front.rs", "f.push_front", "        match arg(self.0@, value, 0) { Some(JsonValue::Array(l)) => Some(json_array(push_front_from(self.0@, value, 1, l@))), _ => None }", "(push_front l a b ..): each further argument in turn is put in front of the list (so the last one ends up first), arguments that give nothing left out; nothing for a non-list",
+ extra='''//@@ loop 1 iter it
+                            invariant
+                                self.0@.len() >= 1, it.seq().len() == self.0@.len() - 1, 0 <= it.index@ <= it.seq().len(),
+                                forall|j: int| 0 <= j < it.seq().len() ==> #[trigger] it.seq()[j] == j + 1,
+                                push_front_from(self.0@, value, it.index@ + 1, new_list@) == push_front_from(self.0@, value, 1, lst@),
+//@@ loop-start 1
+                            let ghost old_list = new_list@;
+//@@ after "new_list.insert(0, val);"
+                                proof { assert(new_list@ =~= seq![val].add(old_list)); }
+''')
+out += fn("f_pop_first", F+"list/list_manipulations/pop_first.rs", "f.pop_first", "        match arg(self.0@, value, 0) { Some(JsonValue::Array(l)) => Some(json_array(if l@.len() == 0 { l@ } else { l@.subrange(1, l@.len() as int) })), _ => None }", "(pop_first l): the list without its first element (the empty list stays empty); nothing for a non-list",
+ rewrites="enumerate", extra='''//@@ loop 1 iter it
+                                invariant
+                                    it.seq().len() == lst@.len(), 0 <= it.index@ <= lst@.len(), lst@.len() > 0,
+                                    forall|j: int| 0 <= j < it.seq().len() ==> (#[trigger] it.seq()[j]).0 == j && *it.seq()[j].1 == lst@[j],
+                                    new_list@ == lst@.subrange(1, if it.index@ < 1 { 1 } else { it.index@ }),
+//@@ after "new_list.push(val.clone());"
+                                    proof { assert(lst@.subrange(1, it.index@).push(lst@[it.index@]) =~= lst@.subrange(1, it.index@ + 1)); }
 ''')
 out += "\n} // verus!\nfn main() {}\n"
 open('/verif/units/BASIC.rs','w').write(out)
